@@ -4,7 +4,7 @@ import ast
 from ..core.model import AnchorError, FuncInfo
 from ..core.cfg import walk_shallow, cfg_of
 from ..core.facts import U, atoms_of
-from ..engine import fn_name, kwarg, stmts_in
+from ..engine import argn, fn_name, kwarg, stmts_in
 from ..kinds import extapi
 from . import c01, c12, c14, common
 
@@ -131,7 +131,7 @@ def s4(ctx, rep):
     # the filter-duplicates family black-lists the configuration it recorded for that trial
     m = P.method("StochasticAndFilterDuplicatesSearcher", "evaluation_failed")
     ok = any(isinstance(x, ast.Call) and fn_name(x) == "add" and "_excl_list" in U(x.func.value) and
-             "_config_for_trial_id[trial_id]" in U(x.args[0]) for x in walk_shallow(m.node))
+             "_config_for_trial_id[trial_id]" in U(argn(x, 0)) for x in walk_shallow(m.node))
     rep.put(ok, "S4", "agreement", "StochasticAndFilterDuplicatesSearcher.evaluation_failed adds the failed trial's own configuration", m, None, "")
 
 
@@ -182,6 +182,10 @@ def run(ctx, rep, tier="quick"):
                   [("self._allow_duplicates", lambda a: a[0] == "truth" and a[1] == "self._allow_duplicates" and a[2] is True),
                    ("trial_id in self._config_for_trial_id", lambda a: a[0] == "in" and a[2] == "self._config_for_trial_id" and a[3] is True)],
                   "with allow_duplicates=True the failed configuration is not black-listed and can be suggested again")
+    # the pending entries of the failed trial really go: the filtered list replaces the pending list whenever it differs, also when
+    # nothing remains (shared with C14-S6)
+    from . import c14
+    c14.s6b(ctx, rep, clause="S4")
     # DEHB: a slot gets a trial id only together with the metric of the winner that is returned to the bracket; a failed job's
     # slot therefore stays (None, NaN) and is never taken as a parent for promotion
     dc = ctx.P.cls("DifferentialEvolutionHyperbandScheduler")
